@@ -252,6 +252,11 @@ nameLoop:
 		}
 		alt++
 		glyphName = fmt.Sprintf("%s.alt%d", base, alt)
+		if !names.IsValid(glyphName) {
+			// No variant of this name is valid (e.g. ".notdef"); fall
+			// back to the generic names instead of trying forever.
+			base = ""
+		}
 	}
 	t.glyphName[gid] = glyphName
 	t.glyphNameUsed[glyphName] = true
